@@ -271,18 +271,48 @@ def _data_paths(run, P):
         c = f"{f.key}:exclude-drops-antimeridian-faces"
         dele = [n for n in ast.walk(f.node) if isinstance(n, ast.Call) and (dotted(n.func) or [""])[-1] == "delete"]
         ok = False
+        seen_other = []
+        ldefs = LocalDefs(f.node)
         for d in dele:
-            if len(d.args) >= 2 and norm(d.args[0]) == "self.values" and slot in norm(d.args[1]) and "antimeridian_face_indices" in norm(d.args[1]):
-                ax = next((k.value for k in d.keywords if k.arg == "axis"), None)
+            if len(d.args) < 2:
+                continue
+            # the index argument, looked at through local definitions (side tables may be read into locals first)
+            nodes, _names = ldefs.closure(d.args[1])
+            from_slot = any(isinstance(x, ast.Subscript) and str_const(x.slice) == "antimeridian_face_indices" and slot in norm(x.value) for e in nodes for x in ast.walk(e))
+            if norm(d.args[0]) == "self.values" and from_slot:
                 from .c03 import _guards_of
                 st = [s for s in iter_stmts(f.node.body) if any(n is d for n in ast.walk(s))][-1]
                 g = _guards_of(f.node.body, st) or []
                 if any(t and isinstance(te, ast.Compare) and norm(te.left) == "periodic_elements" and str_const(te.comparators[0]) == "exclude" for te, t in g):
                     ok = True
+                else:
+                    seen_other.append(d)
+            else:
+                seen_other.append(d)
         if ok:
             run.holds("IDX/data-follow-faces", c, where(f), "for 'exclude' the values of the antimeridian faces recorded by this conversion are removed")
+        elif seen_other:
+            run.incomplete("IDX/data-follow-faces", c, where(f, seen_other[0]), f"{norm(seen_other[0])[:80]}: a deletion from the data that is not recognised as np.delete(self.values, <slot>['antimeridian_face_indices']) under periodic_elements == 'exclude'")
         else:
             run.violation("IDX/data-follow-faces", c, where(f), "for 'exclude' the data are not reduced by the conversion's antimeridian_face_indices")
+        # the side tables are those of THIS conversion: every read of the slot comes after the call that fills it
+        c2 = f"{f.key}:side-tables-read-after-conversion"
+        conv = [n for n in ast.walk(f.node) if isinstance(n, ast.Call) and isinstance(n.func, ast.Attribute) and n.func.attr == method and norm(n.func.value) == "self.uxgrid"]
+        reads = [x for x in ast.walk(f.node) if isinstance(x, ast.Subscript) and isinstance(x.ctx, ast.Load) and slot in norm(x.value) and str_const(x.slice) in ("antimeridian_face_indices", "non_nan_polygon_indices", "corrected_to_original_faces")]
+        if not conv:
+            run.incomplete("IDX/data-follow-faces", c2, where(f), f"call self.uxgrid.{method}(...) not found")
+        elif not reads:
+            run.holds("IDX/data-follow-faces", c2, where(f), "no side table is read from the slot", nontrivial=False)
+        else:
+            first_conv = min(getattr(n, "end_lineno", n.lineno) for n in conv)
+            early = [x for x in reads if x.lineno < first_conv]
+            in_loop = any(isinstance(x, (ast.For, ast.While)) for x in ast.walk(f.node))
+            if early and not in_loop:
+                run.violation("IDX/data-follow-faces", c2, where(f, early[0]), f"{norm(early[0])[:80]} is read before self.uxgrid.{method}(...) runs: it holds the side table of an earlier conversion (other projection / periodic_elements)")
+            elif early:
+                run.incomplete("IDX/data-follow-faces", c2, where(f, early[0]), "side table read textually before the conversion inside a loop")
+            else:
+                run.holds("IDX/data-follow-faces", c2, where(f, reads[0]), f"all {len(reads)} side-table reads follow the conversion call")
         # the NaN filter on the data: only where the data run over faces without antimeridian faces
         for sub in ast.walk(f.node):
             if isinstance(sub, ast.Subscript) and "non_nan_polygon_indices" in norm(sub.slice) and norm(sub.value) == "_data" and isinstance(sub.ctx, ast.Load):
